@@ -11,6 +11,9 @@ WRAPPERS = {"std::option::Option", "std::result::Result", "std::ops::ControlFlow
 WRAPPER_VARIANTS = {"Some", "Ok", "Continue"}
 
 
+BIN_ROOTS = ("dictgen", "compile", "map", "reorder")
+
+
 def unwrap_place(pl):
     """True if the place is a local seen through derefs / Some-Ok-Continue payloads only."""
     for e in pl["p"]:
@@ -62,7 +65,33 @@ def fn_keys(crate, c):
         keys.append("%s::%s" % (f.j["impl_trait"], f.name))
     if c.get("trait") and c.get("name"):
         keys.append("%s::%s" % (c["trait"], c["name"]))
+    if (c.get("resolved") or c).get("krate") == "vibrato" and crate.name != "vibrato":
+        # another crate names a library item by its visible (re-exported) path
+        # (`vibrato::trainer::Model::f` for `vibrato::trainer::model::Model::f`): match the
+        # declaration by `Type::method`, which is unique in the table
+        for k0 in list(keys):
+            alias = _suffix_alias(k0)
+            if alias:
+                keys.append(alias)
     return keys
+
+
+_SUFFIX = None
+
+
+def _suffix_alias(path):
+    global _SUFFIX
+    if _SUFFIX is None:
+        import json
+        import os
+        j = json.load(open(os.path.join(os.path.dirname(os.path.dirname(os.path.abspath(__file__))),
+                                        "spec", "kinds.json")))
+        idx = {}
+        for key in list(j["params"]) + list(j["returns"]):
+            if key.startswith("vibrato::"):
+                idx.setdefault("::".join(key.split("::")[-2:]), set()).add(key)
+        _SUFFIX = {k: next(iter(v)) for k, v in idx.items() if len(v) == 1}
+    return _SUFFIX.get("::".join(path.split("::")[-2:]))
 
 
 def own_keys(f):
@@ -258,7 +287,7 @@ class KindAnalysis:
                             ks = op_kind(t["args"][0])
                             # growth: push/insert/extend give the container the element's kind
                             if name in ("push", "insert", "extend", "push_str", "extend_from_slice",
-                                        "append") and len(t["args"]) >= 2 and \
+                                        "append", "set_extension") and len(t["args"]) >= 2 and \
                                     (c.get("resolved") or c).get("krate") != self.crate.name:
                                 pl0 = op_place(t["args"][0])
                                 if pl0 is not None:
@@ -679,6 +708,8 @@ def anchors(ctx, crate, spec):
             if adt in crate.adts and fld not in crate.fields(adt):
                 raise EngineError("KIND anchor lost: field %s" % key)
             continue
+        if adt.split("::")[0] in BIN_ROOTS:
+            continue    # option structs of the command-line crates: verified in run_all
         if fld not in crate.fields(adt):
             raise EngineError("KIND anchor lost: field %s" % key)
         n += 1
@@ -738,12 +769,35 @@ def run(ctx, scope=None):
                "reported, unlabelled values never produce a verdict")
 
 
+def run_bins(ctx, names):
+    """The command-line crates hand readers / writers opened from side-named options, suffixes
+    and extensions to the library: same analysis, same table."""
+    F = ctx.facts("A")
+    spec = KindSpec()
+    nb = 0
+    for name in names:
+        c = F.crate(name)
+        for key in spec.fields:
+            adt, fld = key.rsplit(".", 1)
+            if adt.split("::")[0] == name[:-4]:
+                if fld not in c.fields(adt):
+                    raise EngineError("KIND anchor lost: field %s" % key)
+                nb += 1
+        n = run_crate(ctx, c)
+        if name != "reorder-bin":    # its only side-dependent sink is a file name (FMT mapping rule)
+            ctx.floor("KIND", "kinded sinks checked (%s)" % name, n, 1)
+    ctx.count("KIND", "command-line option anchors verified", nb)
+
+
+def bins(*names):
+    def run(ctx):
+        run_bins(ctx, names)
+    return run
+
+
 def run_all(ctx):
     run(ctx, None)
-    # binaries pass readers/writers to the library
-    F = ctx.facts("A")
-    for name in ("dictgen-bin", "compile-bin", "map-bin", "reorder-bin"):
-        run_crate(ctx, F.crate(name))
+    run_bins(ctx, ("dictgen-bin", "compile-bin", "map-bin", "reorder-bin"))
 
 
 def op_kind_fn(crate, E, path, spec=None):
